@@ -552,6 +552,40 @@ func GenSession(prop string, seed uint64, thorough bool) *Scenario {
 			sc.Reent = append(sc.Reent, ReentSpec{Event: g.picks("message", "packet", "packetCreate", "flush", "drain", "heartbeat", "upgrade", "upgrading", "close", "callback"), Call: g.picks("send", "send", "close", "close-discard"), Nth: g.rng(1, 3)})
 		}
 	}
+	// C11: a message listener that takes time keeps its data request in flight across virtual instants; an
+	// overlapping data request, an application close or a client abort is then aimed into that window
+	if prop == "C11" && !sc.FaultFree && g.p(0.4) {
+		for ci := range sc.Clients {
+			c := &sc.Clients[ci]
+			if c.Transport != "polling" || c.Upgrade != "" || len(c.Cand) > 0 || len(c.Raw) > 0 || !g.p(0.7) {
+				continue
+			}
+			ms := g.pick(10, 30, 80)
+			t := g.rng(50, sc.HorizonMs/2)
+			c.Sends = append(c.Sends, ClientMsg{AtMs: t, ID: c.Name + ".slow", Size: 10})
+			nth := 1
+			for _, m := range c.Sends {
+				if m.AtMs < t {
+					nth++
+				}
+			}
+			sc.Reent = append(sc.Reent, ReentSpec{Event: "message", Call: "sleep", Ms: ms, Sess: c.Name, Nth: nth})
+			arrive := t + c.LatencyMs
+			switch g.IntN(4) {
+			case 0, 1:
+				c.Faults = append(c.Faults, FaultSpec{AtMs: arrive + g.pick(1, ms/2, ms-1), Kind: "dup-post"})
+			case 2:
+				if g.p(0.5) {
+					// the close lands in the very instant the listener returns and the request is acknowledged
+					sc.Reent[len(sc.Reent)-1].Then = g.picks("close", "close-discard")
+				} else {
+					sc.App = append(sc.App, AppOp{AtMs: c.StartMs + arrive + 2*c.LatencyMs + g.pick(1, ms/2, ms-1), Task: "closer-" + c.Name, Op: g.picks("close", "close-discard"), Sess: c.Name})
+				}
+			default:
+				c.Faults = append(c.Faults, FaultSpec{AtMs: arrive + g.pick(1, ms/2, ms), Kind: "abort-post"})
+			}
+		}
+	}
 	sc.Policy, sc.HotFuncs = genPolicy(g, p.hot, 4000*nc+2000)
 	sc.MaxSteps = 60000
 	return sc
